@@ -18,7 +18,7 @@
    model against the real class, and the property text as an oracle (bin/check C01). *)
 From Coq Require Import List ZArith Lia Bool Arith NArith.
 From Coq.Strings Require Import Byte.
-From Muduo Require Import Gen_Consts Gen_Conn Conn_Model Conn_Proofs Conn_Trace
+From Muduo Require Import Gen_Consts Gen_Conn Conn_Model Conn_Proofs Conn_Trace Conn_Race
                           Conn_GenTie Conn_GenTieLife Conn_GenTieRead.
 Import ListNotations.
 
@@ -312,6 +312,23 @@ Theorem C01_nonfatal_def : forall k,
   nonfatal k = match k with Err e => is_fatal e = false | _ => True end.
 Proof. exact nonfatal_unfold. Qed.
 Print Assumptions C01_nonfatal_def.
+
+(* ========================================================================================== *)
+(* The streams survive the foreign close-request race                                           *)
+(* ========================================================================================== *)
+(* shutdown() / forceClose() / forceCloseWithDelay() called from a foreign thread load and store
+   state_ in two steps (the x-machine of Conn_Model; Properties_C03.C03_xstep_def and the finding
+   "foreign-close-request-check-then-store").  In histories where the loop thread closes the
+   connection between the two the life-cycle invariant breaks (second DOWN), but the stream
+   equations do not: after EVERY history of the x-machine, racy or not, what the peer read ++
+   backlog = the blocks sendInLoop took, consumed ++ input buffer = delivered, foreign sends FIFO. *)
+Theorem C01_streams_survive_foreign_close_race : forall mark wc hw ops x e,
+  xrun (xinit mark wc hw) ops = Ok (x, e) ->
+  wire (xbase x) ++ outb (xbase x) = accepted (xbase x) /\
+  consumed (xbase x) ++ inb (xbase x) = delivered (xbase x) /\
+  ran (xbase x) ++ sends_of (pending (xbase x)) = enq (xbase x).
+Proof. exact xrun_streams_init. Qed.
+Print Assumptions C01_streams_survive_foreign_close_race.
 
 (* ========================================================================================== *)
 (* Source: the model functions ARE the current TcpConnection.cc, guard by guard                 *)
